@@ -32,6 +32,7 @@
 #include <map>
 #include <set>
 #include <string>
+#include <unordered_set>
 #include <vector>
 
 namespace sup {
@@ -88,6 +89,7 @@ class Ctx {
   std::map<std::string, std::set<uint64_t>> dist;
   std::map<std::string, int> viol_count;  // per key, to cap output
   std::map<std::string, int> sample_count;
+  std::unordered_set<uint64_t> distinct_local;  // per-case scratch set, cleared before every case
 
   void set_case(const char* fmt, ...) __attribute__((format(printf, 2, 3))) {
     va_list ap;
@@ -134,7 +136,7 @@ struct Options {
   int case_timeout_s = 120;  // per-case watchdog (wall clock); firing = HANG (inconclusive unless repeated)
   std::string outdir;        // must exist
   long only_case = -1;       // replay a single case
-  int max_crashes = 50;      // stop restarting after this many
+  int max_crashes = 100000;  // stop restarting after this many
 };
 
 typedef std::function<void(long, Ctx&)> CaseFn;
@@ -162,6 +164,7 @@ inline void worker_main(int w, int nworkers, long ncases, long start_k, Slot* sl
     slot->done_upto = k;
     slot->cur_case = c;
     slot->desc[0] = 0;
+    ctx.distinct_local.clear();
     fn(c, ctx);
     ctx.stat("cases_run");
     ctx.flush();
